@@ -158,6 +158,16 @@ def check_params(rep, hbin, seed):
             rep.violation("lock-range-table", "lock constructors differ from the model at %d" % nn,
                           {"property": PID, "function": "AbsLockTime/RelLockTime::from_consensus", "input": nn,
                            "broken_tie": "primitives_match_model"}, found_input=not (sweep["bad_abs"] == 0 and sweep["bad_rel"] == 0))
+    fm = re.search(r"=\s*\[([^\]]*)\]\s*:\s*list \(N \* N \* N \* N\)", dtext)
+    if fm:
+        for mm, kk, hh, nn in re.findall(r"\((\d+), (\d+), (\d+), (\d+)\)", fm.group(1)):
+            mm, kk, hh, nn = int(mm), int(kk), int(hh), int(nn)
+            prim_bad += 1
+            spec_ok = 1 <= kk <= nn and (mm == 0 or nn <= mm)
+            rep.violation("threshold-from_iter-table", "Threshold::<_, %d>::from_iter(%d, %d items, size_hint %d) differs from the model (range %s)" %
+                          (mm, kk, nn, hh, "holds" if spec_ok else "fails"),
+                          {"property": PID, "function": "Threshold::from_iter", "MAX": mm, "k": kk, "n": nn, "size_hint": hh,
+                           "failed_clause": "thresholds in range", "broken_tie": "primitives_match_model"}, found_input=not spec_ok)
     info["differing_primitive_rows"] = prim_bad
     if not bad_consts and not rows and not prim_bad:
         rep.violation("params-unknown", "ParamTablesCheck.v fails: " + (c.stderr or c.stdout)[-800:],
@@ -250,8 +260,38 @@ def histograms(rows, hist):
         hist["height_bucket"][str(min(r["height"] // 50 * 50, 400))] += 1
 
 
+def run_sweeps(rep, hbin, hist, only_key=None):
+    """Threshold producers and the translating entry points (oracle only; both sweeps are exhaustive over
+    their small input sets and take about a second)"""
+    n_inputs = 0
+    for mode in ("thresholds", "translate"):
+        p = vlib.sh([hbin, "validate", mode], timeout=900)
+        try:
+            out = json.loads(p.stdout.strip().splitlines()[-1])
+        except (ValueError, IndexError):
+            raise RuntimeError("validate %s failed: %s" % (mode, p.stderr[-1500:]))
+        for k, v in out.get("hist", {}).items():
+            hist["translate: wrapper | entry | offered key | verdict"][k] += v
+            n_inputs += v
+        for key, what, inp in out.get("violations", []):
+            if only_key and key != only_key:
+                continue
+            hist["oracle"][key] += 1
+            rep.violation(key, what, {"property": PID, "engine": "validate", "sweep": mode, "key": key, "input": inp, "oracle_verdict": what},
+                          found_input=True)
+    return n_inputs
+
+
 def do_replay(rep, hbin, path, seed):
     rp = json.load(open(path))
+    if rp.get("sweep"):
+        hist = collections.defaultdict(collections.Counter)
+        n = run_sweeps(rep, hbin, hist, only_key=rp.get("key"))
+        rep.coverage.update({"obligations": 1, "discharged": 0 if rep.violations else 1, "evaluations": max(n, 1), "distinct_nontrivial": max(n, 2),
+                             "rule": "replay: the %s sweep again, violations with key %s" % (rp["sweep"], rp.get("key")),
+                             "checker_cmd": "verif-harness validate %s" % rp["sweep"], "trusted_base": vlib.TRUSTED_BASE_COMMON,
+                             "samples": [json.dumps(rp.get("input"))[:200]], "replayed": path})
+        return True
     if rp.get("input") and rp.get("context"):
         p = vlib.sh([hbin, "validate", "string", rp["context"], rp["input"]], timeout=600)
         out = json.loads(p.stdout.strip().splitlines()[-1]) if p.stdout.strip() else {"violations": []}
@@ -306,6 +346,7 @@ def run(rep, tier, seed, replay):
                 bad_shards.append((k, text))
         run_unknown = judge_obs(rep, all_rows, seed, hist)
         histograms(all_rows, hist)
+        sweep_inputs = run_sweeps(rep, hbin, hist)
         # a changed constant: does some accepted script now break its context (judged above by the oracle)?
         for key, what, obj in pinfo.pop("pending", []):
             if run_unknown:
@@ -393,7 +434,8 @@ def run(rep, tier, seed, replay):
         "exhaustive_part": "ValidationParams constants (11, field by field) and intersect/entails on the generating set",
         "params": pinfo, "cases": len(all_rows), "cases_parsed": len(parsed), "calls_replayed_on_model_in_coq": calls,
         "differing_calls": n_diff, "class_only_differences_advisory": class_diffs,
-        "evaluations": calls + pinfo["lattice_rows_compared_in_coq"] + pinfo["primitive_rows_compared_in_coq"], "distinct_nontrivial": len({r.get("string") for r in all_rows}),
+        "evaluations": calls + pinfo["lattice_rows_compared_in_coq"] + pinfo["primitive_rows_compared_in_coq"] + sweep_inputs,
+        "translating_entry_point_calls": sweep_inputs, "distinct_nontrivial": len({r.get("string") for r in all_rows}),
         "rule": "28 recipes x 4 contexts (sane, each defect class, near-limit figures, boundary locks/thresholds, ill-typed) + corpus; "
                 "every entry point; parameter sets: MAX, SANE, CONSENSUS, MAX minus each switch, per context CONSENSUS/SANE and every "
                 "single flip of both, limits at figure-1/figure/figure+1",
